@@ -98,9 +98,15 @@ CLAIMED = {
          "unchanged, for all declaration kinds. In-Coq differential check plus twin-process oracle: "
          "every history with faults is run as given and with the rejected steps left out, "
          "observations (Unit(sym), units(), factory parse) and later re-declarations must agree. "
-         "Converter updates: C11_failed_update_unchanged.",
-         "DESIGN.md 5 (C16), 10", "The order of side effects inside QuantityMeta.__new__/__init__ is modelled by hand; "
-         "the tie is the correspondence (directory observations after every history)."),
+         "Converter updates: update histories with rejected updates through C11's harness, model "
+         "(C11_failed_update_unchanged) and oracle. Additionally a statement about the CODE's control "
+         "flow for all inputs: the bodies of _make_unit, _make_ref_unit, new_unit, derive_unit_from, "
+         "MoneyMeta.new_unit, register_currency and MoneyConverter.update are re-translated on every run "
+         "into an effect language (Gen/EffectsImpl.v) and proved to raise only before their first write "
+         "(C16_declaring_methods_raise_before_they_write, via the once-proved EffectsProofs.atomic_sound).",
+         "DESIGN.md 3.7, 5 (C16), 10", "The order of side effects inside QuantityMeta.__new__/__init__ (class creation) is "
+         "modelled by hand and not covered by the effect analysis; the tie there is the correspondence (directory "
+         "observations after every history). What counts as a write / may raise is decided by translate/effects.py."),
  'C17': ("Axiom-free Coq theorems: for every reachable directory and EVERY reachable cache content a "
          "successful unit product / quotient denotes the product / quotient of the operands' values "
          "(which mentions neither cache nor declaration order); cached and recomputed results have "
